@@ -66,6 +66,15 @@ pub fn oracle(c: &RespellCase, obs: &mut Obs) -> Verdict {
         obs.excluded("rendering-does-not-tokenize-as-intended");
         return Verdict::Pass;
     }
+    // a multi-line opening tag that an unwrap-block part would cut in two (one of its lines is a wrapper line, or it begins on
+    // the unwrap-block's tag line): the output then contains half a tag, which no re-spelling of complete tags can map
+    let cut = ra.elems.iter().enumerate().any(|(i, u)| {
+        u.unwrap && !u.inline && u.open_line != u.close_line && ra.elems.iter().enumerate().any(|(k, o)| k != i && o.open_first_line != o.open_line && (o.open_first_line..=o.open_line).any(|l| l == u.open_line || l == u.open_line + 1 || l + 1 == u.close_line))
+    });
+    if cut {
+        obs.excluded("multi-line-tag-cut-by-an-unwrap-part");
+        return Verdict::Pass;
+    }
     if respell(&ra.src, &c.a, &c.b) != rb.src {
         return Verdict::Broken(format!("re-spelling the A rendering does not give the B rendering:\n  A = {:?}\n  B = {:?}", ra.src, rb.src));
     }
@@ -119,6 +128,11 @@ fn opts() -> Opts {
     o.blank_wrappers = true;
     o.first_line_empty_pct = 5;
     o.multiline_tag_pct = 10;
+    o.close_attr_pct = 8;
+    // an unwrap-block tag that shares its line with a surviving tag: the column of the tag then depends on the spelling of
+    // what stands in front of it, and so must the result
+    o.unwrap_tags_shared = true;
+    o.join_pct = 10;
     o
 }
 
@@ -147,6 +161,33 @@ pub fn gen(t: &mut Tape) -> RespellCase {
     };
     let a = spell_of(pa, na);
     let b = spell_of(pb, nb);
+    if t.chance(6) {
+        // a ready unwrap-block whose opening tag stands behind the closing tag of a pending sibling on the same line, with a
+        // deeply indented body: the column of the unwrap tag depends on the spelling of the tag in front of it, the result must not
+        use astgen::{Cond, Elem, Node};
+        let mk = |id: usize, cond: Cond, unwrap: bool| Elem { id, cond, skip: false, unwrap, style: 0 };
+        let deep = " ".repeat(3 + t.below(14));
+        let tag_ind = " ".repeat(t.below(3));
+        let sep = t.s(&["", " ", "  "]).to_string();
+        let nodes = vec![
+            Node::Line("start();".into()),
+            Node::Block { indent: tag_ind.clone(), open_lead: String::new(), elem: mk(901, Cond::Rm(1), false), open_trail: String::new(), kids: vec![Node::Line(format!("{tag_ind}kept();"))], close_indent: tag_ind.clone(), close_lead: String::new(), close_trail: String::new() },
+            Node::Join(sep),
+            Node::Block {
+                indent: String::new(),
+                open_lead: String::new(),
+                elem: mk(902, Cond::Rm(0), true),
+                open_trail: String::new(),
+                kids: vec![Node::Line(format!("{tag_ind}if (flag) {{")), Node::Line(format!("{deep}run();")), Node::Line(format!("{deep}  more();")), Node::Line(format!("{tag_ind}}}"))],
+                close_indent: tag_ind.clone(),
+                close_lead: String::new(),
+                close_trail: String::new(),
+            },
+            Node::Line("end();".into()),
+        ];
+        let doc = Doc { nodes, final_newline: t.chance(50), unit: "  ".into() };
+        return RespellCase { doc, a, b, cfg: ACfg { now_idx: 0, targets: 1 } };
+    }
     let words = words_for(&[pa, pb]);
     let mut bad = delim_chars(pa.0, pa.1);
     bad.extend(delim_chars(pb.0, pb.1));
